@@ -116,7 +116,7 @@ REL = 1e-11             # relative, for pure rotations of vectors (rounding nois
 
 ELLIPSOIDS = [None, (6378137.0, 6356752.314140356), (6378206.4, 6356583.8), (6371000.0, 6371000.0), (3396190.0, 3376200.0)]
 LAT_EDGE = [90.0, -90.0, 0.0, 1e-7, -1e-7, 5.7e-7, -3e-7, 1e-5, -1e-5, 89.999999, -89.999999, 89.9, -89.93, 45.0, -45.0, -33.0, 60.0, -1.0]
-LON_EDGE = [180.0, -180.0, 0.0, 90.0, -90.0, 135.0, -135.0, 179.999999, -179.999999, 91.0, -91.0, 1e-9, 30.0, -60.0]
+LON_EDGE = [180.0, -180.0, 0.0, 90.0, -90.0, 135.0, -135.0, 179.999999, -179.999999, 91.0, -91.0, 1e-9, 30.0, -60.0, 89.9999999, -90.0000001]
 H_EDGE = [-1e4, 0.0, 1e6, 100.0, -431.0, 35000.0]
 
 
@@ -302,8 +302,29 @@ def o_enu(inp):
 
 
 # ---------------------------------------------------------------- oracle 3: ENU <-> AER
+# ENU <-> AER tolerances, calibrated on the unchanged tree (/repo 9aa2766, 1.2e6 points incl. near-vertical, near-horizon and
+# azimuth-wrap families): ENU->AER->ENU component error <= 1.2e-15 * slant (near-vertical points: 3.3e-16 * slant, which is up
+# to 2.7e-4 of a 1e-6 m horizontal offset under 1000 km); angles against the spherical formulas <= 1.6e-16 * full turn;
+# AER->ENU->AER: az*cos(el) <= 2.7e-17 * full, el <= 4e-17 * full, r <= 2.3e-16 relative.  An inverse trig function used away
+# from its well-conditioned range (arcsin/arccos near +-1) resolves angles to sqrt(eps) = 1.5e-8 rad = 2.4e-9 * full only.
+TOL_AER_RT = 5e-14      # round-trip error of every ENU component, relative to the slant range
+TOL_AER_ANG = 1e-13     # angles, relative to the full turn (3.6e-11 deg)
+
+
+def _aer_region(v):
+    hz = math.hypot(v[0], v[1])
+    if hz < 1e-3 * abs(v[2]):
+        return 'near-zenith' if v[2] > 0 else 'near-nadir'
+    if abs(v[2]) < 1e-3 * hz:
+        return 'near-horizon-' + ('west' if v[0] < 0 else 'east')
+    if abs(v[0]) < 1e-3 * abs(v[1]):
+        return 'az-wrap-north' if v[1] > 0 else 'az-near-south'
+    return 'west' if v[0] < 0 else 'east'
+
+
 def o_aer(inp):
-    """ENU->AER->ENU identity, the returned AER against the spherical-coordinate formulas, ranges; AER->ENU->AER on the chart"""
+    """ENU->AER->ENU identity (error relative to the slant range; the error relative to the horizontal offset is reported),
+    the returned AER against the spherical-coordinate formulas, ranges; AER->ENU->AER on the chart up to 1e-6 deg from the vertical"""
     F = _F()
     deg = inp.get('deg', True)
     k = {} if deg else {'deg': False}
@@ -314,20 +335,24 @@ def o_aer(inp):
         args = _typed(v, inp.get('form', 'float'))
         aer = np.asarray(F.enu2aer(*args, **k), float)
         sl = float(np.linalg.norm(v))
-        sc = max(sl, 1e-300)
-        half = 'west' if v[0] < 0 else 'east'
+        hz = math.hypot(v[0], v[1])
+        half = _aer_region(v)
         if aer.shape != (3,) or cm.bad(aer):
             return {'tag': f'enu2aer/shape-or-nonfinite-{half}', 'observed': aer}
         if not (0 <= aer[0] <= full * (1 + 1e-15) and abs(aer[1]) <= full / 4 * (1 + 1e-15) and aer[2] >= 0):
             return {'tag': f'enu2aer/out-of-range-{half}', 'observed': aer}
-        want = [conv(math.atan2(v[0], v[1])) % full, conv(math.atan2(v[2], math.hypot(v[0], v[1]))), sl]
+        want = [conv(math.atan2(v[0], v[1])) % full, conv(math.atan2(v[2], hz)), sl]
         if abs(aer[2] - sl) > 1e-12 * max(1.0, sl):
             return {'tag': f'enu2aer/slant-range-{half}', 'observed': aer, 'expected': want}
-        if _circ(aer[0], want[0], full) > 1e-9 * full or abs(aer[1] - want[1]) > 1e-9 * full:
+        if _circ(aer[0], want[0], full) > TOL_AER_ANG * full or abs(aer[1] - want[1]) > TOL_AER_ANG * full:
             return {'tag': f'enu2aer/angles-{half}', 'observed': aer, 'expected': want}
         back = np.asarray(F.aer2enu(*aer, **k), float)
-        if back.shape != (3,) or cm.maxabs(back, v) > REL * max(1.0, sl):
-            return {'tag': f'enu2aer-aer2enu/not-identity-{half}', 'observed': back, 'expected': v}
+        err = cm.maxabs(back, v) if back.shape == (3,) else math.inf
+        if err > TOL_AER_RT * sl:
+            eh = float(np.max(np.abs(back[:2] - v[:2]))) if back.shape == (3,) else math.inf
+            return {'tag': f'enu2aer-aer2enu/not-identity-{half}', 'observed': back, 'expected': v,
+                    'note': f'error {err:.3g} m = {err / max(sl, 1e-300):.3g} of the slant range; horizontal error {eh:.3g} m = '
+                            f'{eh / hz if hz > 0 else math.inf:.3g} of the horizontal offset {hz:.3g} m'}
         return None
     az, el, r = inp['aer']
     half = 'west' if (az % full) >= full / 2 else 'east'
@@ -336,9 +361,12 @@ def o_aer(inp):
     want = np.array([r * math.cos(e_) * math.sin(a_), r * math.cos(e_) * math.cos(a_), r * math.sin(e_)])
     if enu.shape != (3,) or cm.bad(enu) or cm.maxabs(enu, want) > REL * max(1.0, abs(r)):
         return {'tag': f'aer2enu/differs-from-formula-{half}', 'observed': enu, 'expected': want}
-    if r > 0 and abs(e_) < math.radians(89.0) and 0 <= az < full:
+    if r > 0 and abs(e_) <= math.radians(90.0 - 1e-6) and 0 <= az < full:
+        if abs(e_) > math.radians(89.0):
+            half = ('near-zenith-' if e_ > 0 else 'near-nadir-') + half
         aer = np.asarray(F.enu2aer(*enu, **k), float)
-        if _circ(aer[0], az, full) > 1e-9 * full or abs(aer[1] - el) > 1e-9 * full or abs(aer[2] - r) > 1e-11 * max(1.0, r):
+        c = max(math.cos(e_), 1e-9)
+        if _circ(aer[0], az, full) > TOL_AER_ANG * full / c or abs(aer[1] - el) > TOL_AER_ANG * full or abs(aer[2] - r) > 1e-13 * r:
             return {'tag': f'aer2enu-enu2aer/not-identity-{half}', 'observed': aer, 'expected': [az, el, r]}
     return None
 
@@ -450,6 +478,28 @@ def enu_points(rng, n):
     while len(out) < n:
         out.append((rng.standard_normal(3) * 10 ** rng.uniform(-3, 6)).tolist())
     return out
+
+
+def thin_enu_points(rng, n):
+    """points where an inverse trigonometric function is ill-conditioned if the wrong one is used: almost straight above/below
+    the origin (horizontal offset 1e-6 .. 1 m under |up| = 1e3 .. 1e6 m), almost on the horizon, azimuth at the 0/360 wrap and near 180"""
+    out = []
+    for hz in (1e-6, 1e-4, 1e-2, 0.01, 1.0):
+        for up in (1e3, -1e3, 1e6, -1e6, 3.7e4):
+            for az in (0.3, 2.0, 3.9, 5.5):
+                out.append([hz * math.sin(az), hz * math.cos(az), up])
+    out += [[0.01, 0.0, 1e6], [0.0, -0.01, -1e6], [1e-6, 1e-6, 1e3]]
+    for small in (1e-6, -1e-6, 1e-3, -1e-3, 1.0, -1.0):
+        for big in (1e3, 1e6):
+            out += [[small, big, 0.3 * big], [small, -big, -0.2 * big], [big, -0.7 * big, small], [-big, big, small]]
+    while len(out) < n:
+        hz, az = 10 ** rng.uniform(-6, 0), rng.uniform(0, 2 * math.pi)
+        big = 10 ** rng.uniform(3, 6) * rng.choice([-1, 1])
+        small = 10 ** rng.uniform(-6, 0) * rng.choice([-1, 1])
+        u = rng.random()
+        out.append([hz * math.sin(az), hz * math.cos(az), big] if u < 0.5 else [small, big, rng.uniform(-1, 1) * abs(big)] if u < 0.8
+                   else [big, rng.uniform(-1, 1) * big, small])
+    return [[float(t) for t in v] for v in out]
 
 
 AZ_EDGE = [0.0, 90.0, 180.0, 270.0, 359.999999, 180.000001, 179.999999, 45.0, 135.0, 225.0, 315.0, 200.0, 34.116]
@@ -575,6 +625,17 @@ def search(ctx, scale):
             if all(float(t).is_integer() for t in v) and i % 2:
                 inp['form'] = 'int'
             ctx.check('aer', inp, cm_call(o_aer, inp, 'aer'), nontrivial_key=rk(*v) + (deg,) if any(v) else None)
+    for v in thin_enu_points(rng, 160 + 120 * scale):
+        for deg in (True, False):
+            inp = {'enu': v, 'deg': deg}
+            ctx.check('aer', inp, cm_call(o_aer, inp, 'aer'), nontrivial_key=rk(*v) + (deg, 'thin'))
+    for i in range(40 * scale):     # AER chart almost at the vertical and at the azimuth wrap
+        az = [0.0, 1e-9, 359.999999999, 180.0, 90.0, 270.0, 123.4][i % 7] if i < 14 else float(rng.uniform(0, 360))
+        el = (90.0 - 10 ** rng.uniform(-6, 0)) * (1 if i % 2 else -1)
+        r = float(10 ** rng.uniform(0, 6))
+        for deg in (True, False):
+            inp = {'aer': [az, el, r] if deg else [math.radians(az), math.radians(el), r], 'deg': deg}
+            ctx.check('aer', inp, cm_call(o_aer, inp, 'aer'), nontrivial_key=rk(az, el, r) + (deg, 'chart-vertical'))
     for i in range(150 * scale):
         az = AZ_EDGE[i % len(AZ_EDGE)] if i < 3 * len(AZ_EDGE) else float(rng.uniform(0, 360))
         el = [0.0, 35.0, -35.0, 88.9, -88.9, 4.1931][i % 6] if i < 3 * len(AZ_EDGE) else float(rng.uniform(-88.9, 88.9))
